@@ -29,6 +29,12 @@ func checkFileClient(sys *Sys, g *Graph, e Edge) []string {
 			}
 		}
 	}
+	// entries a hand-written secrets file may also contain (the file-backed client documents the format): no version, version 0,
+	// a text value. Whatever the client makes of them (it may skip them), its two calls have to agree with each other.
+	hand := []string{"hand/zero", "hand/nover", "hand/text"}
+	doc["hand/zero"] = map[string]any{"secret": map[string]any{"Value": []byte("zero-version value"), "Version": 0}}
+	doc["hand/nover"] = map[string]any{"secret": map[string]any{"TextValue": "no version given"}}
+	doc["hand/text"] = map[string]any{"secret": map[string]any{"TextValue": " text with edges \n", "Version": 7}}
 	b, _ := json.Marshal(doc)
 	p := filepath.Join(sys.Dir, "fileclient.json")
 	if err := os.WriteFile(p, b, 0o600); err != nil {
@@ -45,6 +51,21 @@ func checkFileClient(sys *Sys, g *Graph, e Edge) []string {
 		want = "notfound"
 	}
 	var bad []string
+	for _, n := range hand {
+		gv, gerr := fc.Get(context.Background(), n)
+		cv, cerr := fc.GetIfChanged(context.Background(), n, 0) // V = 0: the flag is ignored, the answer is Get's
+		if classify(gerr) != classify(cerr) || (gerr == nil && (gv.Version != cv.Version || !bytes.Equal(gv.Value, cv.Value))) {
+			bad = append(bad, fmt.Sprintf("FileClient on a hand-written entry %q: Get is %q but GetIfChanged(.., 0) is %q (with V = 0 the active value is returned)", n, classify(gerr), classify(cerr)))
+		}
+		if gerr == nil && gv.Version != 0 {
+			if _, err := fc.GetIfChanged(context.Background(), n, gv.Version); classify(err) != "notchanged" {
+				bad = append(bad, fmt.Sprintf("FileClient on %q: GetIfChanged with the version Get reports (%d) is %q, want not-changed", n, gv.Version, classify(err)))
+			}
+			if ov, err := fc.GetIfChanged(context.Background(), n, gv.Version+1); err != nil || !bytes.Equal(ov.Value, gv.Value) {
+				bad = append(bad, fmt.Sprintf("FileClient on %q: GetIfChanged with another version does not return the value (%v)", n, err))
+			}
+		}
+	}
 	if got != want {
 		bad = append(bad, fmt.Sprintf("FileClient.GetIfChanged(%q,%d) is %q, specification says %q", e.Op.Name, e.Op.Ver, got, want))
 	}
